@@ -105,3 +105,118 @@ theorem runNested_flat (links : List (Option Nat)) (f : Nat) (w : List Inst) (i 
         exact Flat.nil w
 
 end Mesa.Steps
+
+namespace Mesa.Steps
+
+/-! ### the nesting fuel is immaterial when links point forward (review item M17) -/
+
+theorem stepNested_length (links : List (Option Nat)) (f : Nat) (w : List Inst) (i : Nat) (args : List Int) :
+    (stepNested links f w i args).1.length = w.length := by
+  induction f generalizing w i args with
+  | zero => rfl
+  | succ f ih =>
+    unfold stepNested
+    cases hx : w[i]? with
+    | none => rfl
+    | some x =>
+      simp only
+      cases hl : links[i]?.join with
+      | none => simp
+      | some j =>
+        simp only
+        have hfold : ∀ (es : List Entry) (acc : List Inst × List Call),
+            (es.foldl (fun (acc : List Inst × List Call) _ =>
+              let n := stepNested links f acc.1 j []; (n.1, acc.2 ++ n.2)) acc).1.length = acc.1.length := by
+          intro es
+          induction es with
+          | nil => intro acc; rfl
+          | cons e es ihe => intro acc; simp only [List.foldl_cons]; rw [ihe, ih]
+        rw [hfold]; simp
+
+/-- links only point to instances created later -/
+def Forward (links : List (Option Nat)) : Prop := ∀ (i j : Nat), links[i]?.join = some j → i < j
+
+theorem stepNested_fuel (links : List (Option Nat)) (hf : Forward links) (f f' : Nat) (w : List Inst) (i : Nat)
+    (args : List Int) (h1 : w.length - i ≤ f) (h2 : w.length - i ≤ f') :
+    stepNested links f w i args = stepNested links f' w i args := by
+  induction f generalizing f' w i args with
+  | zero =>
+    have hi : w.length ≤ i := by omega
+    have hx : w[i]? = none := List.getElem?_eq_none hi
+    cases f' with
+    | zero => rfl
+    | succ f' => simp [stepNested, hx]
+  | succ f ih =>
+    cases hx : w[i]? with
+    | none =>
+      cases f' with
+      | zero => simp [stepNested, hx]
+      | succ f' => simp [stepNested, hx]
+    | some x =>
+      have hi : i < w.length := (List.getElem?_eq_some_iff.mp hx).1
+      cases f' with
+      | zero => omega
+      | succ f' =>
+        unfold stepNested
+        simp only [hx]
+        cases hl : links[i]?.join with
+        | none => rfl
+        | some j =>
+          simp only
+          have hij : i < j := hf i j hl
+          have hfold : ∀ (es : List Entry) (acc : List Inst × List Call), acc.1.length = w.length →
+              es.foldl (fun (acc : List Inst × List Call) _ =>
+                let n := stepNested links f acc.1 j []; (n.1, acc.2 ++ n.2)) acc
+              = es.foldl (fun (acc : List Inst × List Call) _ =>
+                let n := stepNested links f' acc.1 j []; (n.1, acc.2 ++ n.2)) acc := by
+            intro es
+            induction es with
+            | nil => intro acc _; rfl
+            | cons e es ihe =>
+              intro acc hlen
+              simp only [List.foldl_cons]
+              rw [ih f' acc.1 j [] (by rw [hlen]; omega) (by rw [hlen]; omega)]
+              apply ihe
+              simp only
+              rw [stepNested_length, hlen]
+          rw [hfold _ _ (by simp)]
+
+end Mesa.Steps
+
+namespace Mesa.Steps
+
+theorem stepNested_calls_pos (links : List (Option Nat)) (f : Nat) (w : List Inst) (i : Nat) (args : List Int)
+    (hi : i < w.length) : 1 ≤ (stepNested links (f + 1) w i args).2.length := by
+  unfold stepNested
+  have hx : w[i]? = some w[i] := List.getElem?_eq_getElem hi
+  simp only [hx]
+  cases links[i]?.join with
+  | none => simp
+  | some j => simp
+
+/-- with fuel left, no nested call is dropped: a call on an instance whose bodies step instance `j` contains, besides itself,
+    at least one call for every body that ran -/
+theorem stepNested_calls_ge (links : List (Option Nat)) (f : Nat) (w : List Inst) (i j : Nat) (args : List Int) (x : Inst)
+    (hx : w[i]? = some x) (hl : links[i]?.join = some j) (hj : j < w.length) :
+    1 + (callStep x args).2.1.length ≤ (stepNested links (f + 2) w i args).2.length := by
+  rw [stepNested]
+  simp only [hx, hl]
+  have hfold : ∀ (es : List Entry) (acc : List Inst × List Call), acc.1.length = w.length →
+      acc.2.length + es.length ≤ (es.foldl (fun (acc : List Inst × List Call) _ =>
+        let n := stepNested links (f + 1) acc.1 j []; (n.1, acc.2 ++ n.2)) acc).2.length := by
+    intro es
+    induction es with
+    | nil => intro acc _; simp
+    | cons e es ihe =>
+      intro acc hlen
+      simp only [List.foldl_cons]
+      have h1 := stepNested_calls_pos links f acc.1 j [] (by rw [hlen]; exact hj)
+      have h2 := ihe (((stepNested links (f + 1) acc.1 j []).1, acc.2 ++ (stepNested links (f + 1) acc.1 j []).2))
+        (by simp only; rw [stepNested_length, hlen])
+      simp only [List.length_append, List.length_cons] at h2 ⊢
+      omega
+  have := hfold (callStep x args).2.1 (w.set i (callStep x args).1, []) (by simp)
+  simp only [List.length_cons, List.length_nil] at this ⊢
+  omega
+
+end Mesa.Steps
